@@ -383,3 +383,84 @@ def nested_forms():
         ("A=1 command", pre("A=1", "command")), ("time command", pre("time", "command")), ("strace -f command", pre("strace", "-f", "command")),
         ("builtin command", pre("builtin", "command")),
     ]
+
+
+# ------------------------------------------------------------------------------------------ handler token lists
+def handler_alphabets():
+    """head words -> (full, core): token alphabets of the delegating handlers, drawn from each handler's own
+    tables and comparison literals (every literal, a near miss, a neutral word, inner commands of each class)."""
+    inner = ["ls", "rm", "zap"]
+    A = {
+        ("sh",): (["-c", "-e", "-ec", "-ce", "+c", "-o", "-O", "-co", "--", "-", "--norc", "-norc", "--rcfile", "-rcfile", "--init-file", "--posix", "--bogus",
+                   "--help", "--version", "-h", "-s", "-i", "-l", "rm x", "ls; zap", "script.sh", "errexit", "", "x"],
+                  ["-c", "-ec", "-o", "--", "--norc", "--rcfile", "--help", "rm x", "x"]),
+        ("env",): (["-i", "-u", "-C", "-S", "-v", "-0", "-iu", "-uX", "-iS", "-Sls", "--", "-", "A=1", "=x", "--unset", "--unset=X", "--uns", "--chdir", "--split-string",
+                    "--split-string=rm x", "--split=ls", "-S rm x", "--debug", "--ignore-environment", "--i", "--d", "--bogus", "--help", "-h", "x"] + inner,
+                   ["-i", "-u", "-S", "--", "A=1", "--uns", "--split-string", "rm", "zap", "x"]),
+        ("xargs",): (["-0", "-n", "-n1", "-I", "-I{}", "-i", "-ix", "-l", "-l1", "-e", "-E", "-eX", "-p", "-o", "-t", "-r", "-0I", "-tn", "-J", "-R", "-s", "-S", "-P", "-a", "-d", "--", "-",
+                      "--max-args", "--max-args=1", "--max-a", "--interactive", "--inter", "--open-tty", "--replace", "--replace=X", "--rep", "--eof", "--null", "--arg-file",
+                      "--process-slot-var", "--bogus", "--help", "-h", "{}", "x", "1"] + inner,
+                     ["-0", "-n", "-I", "-i", "-p", "--", "--max-args", "--replace", "rm", "zap", "x"]),
+        ("find", "."): (["-exec", "-execdir", "-ok", "-okdir", "-delete", ";", "\\;", "+", "{}", "-name", "-o", "-print", "!", "(", ")", "-fprint", "-fls", "--", "-", "--help", "-h", "x"] + inner,
+                        ["-exec", "-execdir", "-ok", "-delete", ";", "+", "{}", "-name", "rm", "zap", "ls"]),
+        ("fd",): (["-x", "-X", "--exec", "--exec-batch", "--exec=ls", "--exec=", "--exec-batch=rm", "-xls", "-Xrm", "-Hx", "-HX", "-Hxls", "-H", "-e", "-t", "-tx", "-d", "-ex", ";", "\\;",
+                   "--", "-", "--help", "-h", "pat", "x"] + inner,
+                  ["-x", "--exec", "-Hx", "-xls", "-e", ";", "--exec=ls", "rm", "zap", "x"]),
+        ("docker",): (["exec", "-i", "-it", "-d", "-e", "-u", "-w", "-ie", "-iu", "-eA=1", "--env", "--env=A=1", "--env-file", "--detach-keys", "--detach-keys=a", "--user", "--workdir", "--privileged", "--tty",
+                       "--", "-", "c", "-D", "--debug", "-l", "-ldebug", "-Dl", "debug", "--log-level", "--log-level=debug", "--config", "-H", "--host", "-c", "--context", "ps", "run", "compose",
+                       "container", "image", "save", "-o", "--help", "-h", "x"] + inner,
+                      ["exec", "-it", "-e", "-ie", "--env=A=1", "--", "c", "-l", "--detach-keys", "rm", "zap"]),
+        ("docker", "exec"): (["-i", "-it", "-d", "-e", "-u", "-w", "-ie", "-iu", "-eA=1", "--env", "--env=A=1", "--env-file", "--detach-keys", "--detach-keys=a", "--user", "--workdir", "--privileged",
+                              "--tty", "--", "-", "c", "exec", "--help", "-h", "x", "A=1", "root"] + inner,
+                             ["-it", "-e", "-ie", "-eA=1", "--env=A=1", "--user", "--", "c", "rm", "zap", "ls"]),
+        ("podman", "exec"): (["-it", "-e", "-ie", "--env=A=1", "--", "c", "-l", "--latest", "--help", "x"] + inner, ["-it", "-e", "--", "c", "rm", "zap"]),
+        ("kubectl",): (["exec", "--", "-it", "-i", "-t", "-q", "-c", "-cctr", "-n", "-nns", "ns", "--namespace", "--namespace=ns", "-l", "-o", "-f", "--context", "--cluster", "--kubeconfig", "-s",
+                        "--stdin", "--tty", "--quiet", "--cache-dir", "-v", "-v=3", "pod", "deploy/app", "get", "delete", "config", "view", "set", "rollout", "status", "restart", "auth", "can-i",
+                        "-", "--help", "-h", "x"] + inner,
+                       ["exec", "--", "-it", "-c", "-n", "--namespace=ns", "--stdin", "pod", "get", "rm", "zap"]),
+        ("kubectl", "exec"): (["--", "-it", "-i", "-t", "-q", "-ti", "-c", "-cctr", "-n", "-nns", "ns", "--namespace", "--namespace=ns", "--container", "--container=c", "-f", "-s", "-v", "--stdin", "--tty", "--quiet",
+                               "--insecure-skip-tls-verify", "--cache-dir", "--kubeconfig", "pod", "ctr", "-", "--help", "-h", "x"] + inner,
+                              ["--", "-it", "-c", "-cctr", "--namespace=ns", "--stdin", "--cache-dir", "pod", "rm", "zap", "ls"]),
+        ("k", "exec"): (["--", "-it", "-c", "pod", "--stdin", "x"] + inner, ["--", "-it", "pod", "rm", "zap"]),
+        ("uv",): (["run", "--", "-q", "--python", "3.12", "--with", "--with=x", "-p", "-m", "--module", "--script", "--help", "-h", "--version", "help", "pip", "sync", "tool", "python", "x"] + inner,
+                  ["run", "--", "-q", "--python", "--with=x", "-m", "pip", "rm", "zap", "x"]),
+        ("arch",): (["-x86_64", "-arm64", "-arch", "arm64", "-e", "A=1", "-d", "X", "-c", "-32", "-64", "--", "-", "--help", "-h", "x"] + inner, ["-x86_64", "-arch", "arm64", "-e", "A=1", "--", "rm", "zap"]),
+        ("caffeinate",): (["-i", "-d", "-s", "-m", "-u", "-dis", "-t", "-w", "-t5", "-it", "5", "--", "-", "--help", "-h", "x"] + inner, ["-i", "-dis", "-t", "-w", "5", "--", "rm", "zap"]),
+        ("script",): (["-q", "-a", "-c", "-t", "-T", "-F", "-k", "-r", "-p", "-d", "-e", "0", "out", "/dev/null", "--", "-", "--help", "-h", "rm x", "x"] + inner,
+                      ["-q", "-a", "-c", "-t", "0", "out", "/dev/null", "rm x", "rm", "zap"]),
+        ("tar", "-xf", "a.tar"): (["--to-command", "--to-command=", "--to-command=ls", "--to-command=rm x", "--to-command=zap", "-x", "-c", "-t", "-tf", "-cf", "-O", "--", "-", "--help", "x", "rm x"] + inner,
+                                  ["--to-command", "--to-command=rm x", "--to-command=zap", "-t", "--", "rm x", "zap", "x"]),
+    }
+    for h, extra in ((("sh",), ("bash",)), (("sh",), ("zsh",))):
+        A[extra] = (A[h][1] + ["-O", "-lc", "--login", "--init-file"], A[h][1][:6])
+    return A
+
+
+def handler_token_lists(tier):
+    """head + token lists:  every token of the full alphabet alone, before and after every token of a small core
+    (thorough: full^2 and every position of a 3-list), and the core alphabet exhaustively up to 3 (thorough: 4)."""
+    quick = tier == "quick"
+    for head, (full, core) in handler_alphabets().items():
+        full, core = _uniq(full), _uniq(core)
+        near = core[:5]
+        seen = set()
+
+        def emit(t):
+            if tuple(t) not in seen:
+                seen.add(tuple(t))
+                return True
+            return False
+        lists = [[]] + [[f] for f in full]
+        for f in full:
+            for a in (near if quick else full):
+                lists += [[f, a], [a, f]]
+            if not quick:
+                for a in near:
+                    for b in near:
+                        lists += [[f, a, b], [a, f, b], [a, b, f]]
+        lists += list(_product(core[:8] if quick else core, 1, 3))
+        if not quick:
+            lists += list(_product(core[:7], 4, 4))
+        for t in lists:
+            if emit(t):
+                yield list(head) + list(t)
